@@ -241,11 +241,25 @@ theorem mem_replaceRev_self {r0 r1 : Rev} {l : List Rev} (h0 : r0 ∈ l) (hn : r
   simp only [replaceRev, List.mem_map]
   exact ⟨r0, h0, by simp [hn]⟩
 
-theorem exec_updateRev_present {s : Store} {r0 r1 : Rev} (h0 : r0 ∈ s.revs) (hn : r1.name = r0.name) :
-    exec s (.updateRev r1) = ({ s with revs := replaceRev r1 s.revs }, .rev r1) := by
-  have : s.revs.any (fun x => x.name = r1.name) = true := by
-    simp only [List.any_eq_true, decide_eq_true_eq]; exact ⟨r0, h0, hn.symm⟩
-  simp [exec, this, replaceRev]
+theorem find_of_mem {l : List Rev} (hp : l.Pairwise (fun a b => a.name ≠ b.name)) {r0 : Rev} (h0 : r0 ∈ l) :
+    l.find? (fun x => decide (x.name = r0.name)) = some r0 := by
+  cases h : l.find? (fun x => decide (x.name = r0.name)) with
+  | none =>
+    have := List.find?_eq_none.mp h r0 h0
+    simp at this
+  | some y =>
+    have hy : y ∈ l := List.mem_of_find?_eq_some h
+    have hn : y.name = r0.name := by have := List.find?_some h; simpa using this
+    rw [eq_of_name_eq hp hy h0 hn]
+
+/-- an `Update` whose base is the stored revision (nobody touched it since it was read) is
+applied; the stored revision gets the next resourceVersion -/
+theorem exec_updateRev_present {s : Store} (hp : s.revs.Pairwise (fun a b => a.name ≠ b.name)) {r0 r1 : Rev}
+    (h0 : r0 ∈ s.revs) (hn : r1.name = r0.name) :
+    exec s (.updateRev r0 r1) =
+      ({ s with revs := replaceRev { r1 with rv := r0.rv + 1 } s.revs }, .rev { r1 with rv := r0.rv + 1 }) := by
+  have hf : s.revs.find? (fun x => decide (x.name = r1.name)) = some r0 := by rw [hn]; exact find_of_mem hp h0
+  simp only [exec, hf, if_true, replaceRev]
 
 /-- an update that only moves the number forward (to a number unused in the
 composition) and/or changes the owner keeps the store well-formed and is a step
@@ -350,15 +364,16 @@ theorem exec_createRev_present {s : Store} {r : Rev} (h : ∃ x ∈ s.revs, x.na
 
 /-- requests that never touch the revisions -/
 def Req.readsRevs : Req → Prop
-  | .updateRev _ | .createRev _ => False
+  | .updateRev _ _ | .createRev _ => False
   | _ => True
 
 theorem exec_revs_of_reads {s : Store} {r : Req} (h : r.readsRevs) : (exec s r).1.revs = s.revs := by
   cases r <;> simp [Req.readsRevs] at h <;> simp [exec]
+  all_goals (split <;> try rfl)
   all_goals (split <;> rfl)
 
 theorem exec_comps (s : Store) (r : Req) : (exec s r).1.comps = s.comps := by
-  cases r <;> simp [exec] <;> split <;> rfl
+  cases r <;> simp [exec] <;> split <;> (try rfl) <;> split <;> rfl
 
 /-! ## Part 3: the programs -/
 
@@ -380,7 +395,7 @@ theorem safeP_ret (Inv : Store → Prop) (R : Store → Store → Prop) (Post : 
 end Programs
 
 /-- a revision with its owner reference erased -/
-def er (r : Rev) : Rev := { r with ctrl := none }
+def er (r : Rev) : Rev := { r with ctrl := none, rv := 0 }
 
 theorem er_name {a b : Rev} (h : er a = er b) : a.name = b.name := by
   have := congrArg Rev.name h; exact this
@@ -461,9 +476,9 @@ theorem adopt_safe {H : Naming} {D : Content → Prop} (uid : Nat) {Post : Bool 
           cases h : r.ctrl with
           | none => rfl
           | some u => simp [h] at hc2
-        let r1 : Rev := { r with ctrl := some uid }
-        have hex : exec s (.updateRev r1) = ({ s with revs := replaceRev r1 s.revs }, .rev r1) :=
-          exec_updateRev_present hr rfl
+        let r1 : Rev := { r with ctrl := some uid, rv := r.rv + 1 }
+        have hex : exec s (.updateRev r { r with ctrl := some uid }) = ({ s with revs := replaceRev r1 s.revs }, .rev r1) :=
+          exec_updateRev_present w.names hr rfl
         have hsame : Same r r1 := ⟨rfl, rfl, rfl, rfl, rfl, Nat.le_refl _⟩
         have hfresh : ∀ x ∈ s.revs, x.comp = r1.comp → x.num = r1.num → x.name = r1.name :=
           fun x hx hc hn => w.nums x hx r hr hc hn
@@ -623,9 +638,9 @@ theorem renum_safe {H : Naming} {D : Content → Prop} (hi : H.Inj D) (cn h : St
         exact Nat.lt_of_le_of_ne h1 h2
       · -- renumber to latest+1
         rename_i hnum
-        let r1 : Rev := { r with num := latest + 1 }
-        have hex : exec s (.updateRev r1) = ({ s with revs := replaceRev r1 s.revs }, .rev r1) :=
-          exec_updateRev_present hr rfl
+        let r1 : Rev := { r with num := latest + 1, rv := r.rv + 1 }
+        have hex : exec s (.updateRev r { r with num := latest + 1 }) = ({ s with revs := replaceRev r1 s.revs }, .rev r1) :=
+          exec_updateRev_present w.names hr rfl
         have hrl : r.num ≤ latest := hle r hr hrc
         have hsame : Same r r1 := ⟨rfl, rfl, rfl, rfl, rfl, Nat.le_succ_of_le hrl⟩
         have hfresh : ∀ x ∈ s.revs, x.comp = r1.comp → x.num = r1.num → x.name = r1.name := by
@@ -838,7 +853,7 @@ theorem xrRef_setXRRef {xs : List XR} {n ref : String} (h : ∃ x ∈ xs, x.name
   | nil => obtain ⟨x, hx, _⟩ := h; cases hx
   | cons y ys ih =>
     by_cases hy : y.name = n
-    · have e : setXRRef n ref (y :: ys) = { y with ref := some ref } :: setXRRef n ref ys := by
+    · have e : setXRRef n ref (y :: ys) = { y with ref := some ref, rv := y.rv + 1 } :: setXRRef n ref ys := by
         simp [setXRRef, hy]
       rw [e, List.find?_cons_of_pos (by simpa using hy)]
       rfl
@@ -926,10 +941,8 @@ theorem fetch_safe (s : Store) (n : String) :
             simp only [exec, hxn, hx]
             refine ⟨inv0, (by first | trivial | rfl), ?_, err _ s, err _ s⟩
             rw [safeP_call]
-            have hany : s.xrs.any (fun y => decide (y.name = n)) = true := by
-              simp only [List.any_eq_true, decide_eq_true_eq]
-              exact ⟨x, List.mem_of_find?_eq_some hx, hxn⟩
-            simp only [exec, hany, if_true]
+            have hfx : s.xrs.find? (fun y => decide (y.name = x.name)) = some x := by rw [hxn]; exact hx
+            simp only [exec, hfx, if_true]
             refine ⟨⟨rfl, rfl⟩, (by first | trivial | rfl), ?_, err _ s, err _ s⟩
             refine (safeP_ret _ _ _ _ _ _).mpr (post _ ?_)
             simp only [xrRef, hxn]
